@@ -164,10 +164,13 @@ def writer_table(ctx, slot: str):
                 else:
                     st = {d.get(k, k): v for k, v in st.items()}
             elif op.name == "drop" and FO.axis_is_columns(c):
+                arg0 = c.args[0] if c.args else next((k.value for k in c.keywords if k.arg in ("labels", "columns")), None)
                 try:
-                    names = M.lit(fn.mod, c.args[0])
+                    names = M.lit(fn.mod, arg0) if arg0 is not None else None
                 except NotLiteral:
                     names = None
+                if names is None:
+                    problems.append("drop argument not a literal")
                 for nm in ([names] if isinstance(names, str) else names or []):
                     if nm in st:
                         del st[nm]
